@@ -73,12 +73,17 @@ def gen_triple(rng, tier="quick"):
                     e["name"] = newname
             units[victim]["name"] = newname
     rng.shuffle(us)
-    if rng.random() < 0.25 and len(us) >= 2:
+    if rng.random() < 0.4 and len(us) >= 2:
         # a memory-access entry naming a capability that only ANOTHER unit declares (legal: the list is matched against
         # the capabilities known in the whole processor); when that unit comes later in the file the entry is a reference
         # made before the definition (seeded change C13-8)
         i, j = rng.sample(range(len(us)), 2)
+        if i > j and rng.random() < 0.7:
+            us[i], us[j] = us[j], us[i]           # mostly: the referring unit is listed BEFORE the defining one
+            i, j = j, i
+        declared_elsewhere = {c for k, u in enumerate(us) if k != j for c in u["capabilities"]}
         extra = [c for c in us[j]["capabilities"] if c not in us[i]["capabilities"]]
+        extra = [c for c in extra if c not in declared_elsewhere] or extra    # preferably declared by that unit ONLY
         if extra:
             us[i]["memoryAccess"] = list(us[i].get("memoryAccess", [])) + [rng.choice(extra)]
     es = [[units[a]["name"], units[b]["name"]] for a, b in sorted(edges)]
